@@ -686,9 +686,29 @@ func ruleDUP(c *Ctx) []Obligation {
 	return obs
 }
 
-// errExempt: frozen exemptions of ERR keyed "caller→callee".
-var errExempt = map[string]string{
-	"asm.(*generator).getIndex→asm.(*generator).irIntConst": "the argument is an ast.IntConst token whose lexical forms (decimal, u0x, s0x, true/false) constant.NewIntFromString accepts, and the dummy type is the literal types.I64, so the *types.IntType assertion cannot fail",
+// errPanicExempt: a call whose error cannot occur for any token the lexer produces — the
+// integer-literal translator applied to an *ast.IntConst with the literal dummy type
+// types.I64 (the only errors of that translator are a type that is not an integer type and
+// a literal constant.NewIntFromString rejects; the lexical forms of an IntConst token —
+// decimal, u0x, s0x, true / false — are all accepted). Decided from the call, not from the
+// names of caller and callee.
+func errPanicExempt(info *types.Info, callee *types.Func, call *ast.CallExpr) (string, bool) {
+	sig := callee.Type().(*types.Signature)
+	if sig.Params().Len() != 2 || len(call.Args) != 2 || sig.Results().Len() != 2 {
+		return "", false
+	}
+	if !isNamed(sig.Params().At(1).Type(), pkgAST, "IntConst") || !isNamed(sig.Results().At(0).Type(), pkgCONS, "Int") {
+		return "", false
+	}
+	se, ok := unparen(call.Args[0]).(*ast.SelectorExpr)
+	if !ok {
+		return "", false
+	}
+	v, ok := info.Uses[se.Sel].(*types.Var)
+	if !ok || v.Pkg() == nil || v.Pkg().Path() != pkgTYP || v.Name() != "I64" {
+		return "", false
+	}
+	return "the argument is an ast.IntConst token whose lexical forms (decimal, u0x, s0x, true/false) constant.NewIntFromString accepts, and the dummy type is the literal types.I64, so the *types.IntType assertion cannot fail", true
 }
 
 func ruleERR(c *Ctx) []Obligation {
@@ -711,7 +731,6 @@ func ruleERR(c *Ctx) []Obligation {
 				return true
 			}
 			key := fmt.Sprintf("%s→%s", funcKey(fn), funcKey(callee))
-			ekey := key
 			ord[key]++
 			if ord[key] > 1 {
 				key += fmt.Sprintf("#%d", ord[key])
@@ -772,7 +791,7 @@ func ruleERR(c *Ctx) []Obligation {
 				case returnsError(info, guard.Body.List):
 					o.Detail = "tested; non-nil → returned"
 				case endsInPanic(guard.Body.List):
-					if why, ex := errExempt[ekey]; ex {
+					if why, ex := errPanicExempt(info, callee, call); ex {
 						o.Verdict, o.Detail = EXEMPT, why
 					} else {
 						o.Verdict = VIOL
